@@ -74,6 +74,22 @@ def ErrList.asFirst : ErrList → Nat → Option Nat
   | .skip r, ty => r.asFirst ty
 end
 
+/-! ### errors.As with a target of a *leaf* type (e.g. `*ers.Error`, the comparable string constants):
+    the id of the first leaf (same traversal as `as`) that satisfies `p` -/
+mutual
+def Err.asLeaf (p : Nat → Bool) : Err → Option Nat
+  | .leaf id => if p id then some id else none
+  | .typed _ _ => none
+  | .wrap _ inner => inner.asLeaf p
+  | .multi _ cs => cs.asLeafFirst p
+  | .unwinder _ _ => none
+  | .stack cs => cs.asLeafFirst p
+def ErrList.asLeafFirst (p : Nat → Bool) : ErrList → Option Nat
+  | .nil => none
+  | .cons e r => (e.asLeaf p).orElse (fun _ => r.asLeafFirst p)
+  | .skip r => r.asLeafFirst p
+end
+
 /-! ### Stack.Push: `acc` is the stack's content, most recent first -/
 mutual
 def Err.push (acc : List Err) : Err → List Err
